@@ -206,9 +206,173 @@ def report_failures(chk, max_shrunk=6):
         chk.extra["failure_buckets"] = summary
 
 
+# ------------------------------------------------------------------------------ the BUNDLED file adapters as the equivalent pair
+FA_MODEL = """[request_definition]
+r = sub, obj, act
+[policy_definition]
+p = sub, obj, act
+p2 = sub, act
+[role_definition]
+g = _, _
+g2 = _, _
+[policy_effect]
+e = some(where (p.eft == allow))
+[matchers]
+m = g(r.sub, p.sub) && g2(r.obj, p.obj) && r.act == p.act
+"""
+FA_SUBS, FA_ROLES, FA_OBJS, FA_GROUPS, FA_ACTS = ["alice", "bob"], ["admin", "staff"], ["data1", "data2"], ["grp1", "grp2"], ["read", "write"]
+FA_TYPES = ["p", "p2", "g", "g2"]
+
+
+def fa_rule(rng, pt):
+    if pt == "p":
+        return [rng.choice(FA_SUBS + FA_ROLES), rng.choice(FA_OBJS + FA_GROUPS), rng.choice(FA_ACTS)]
+    if pt == "p2":
+        return [rng.choice(FA_SUBS + FA_ROLES), rng.choice(FA_ACTS)]
+    if pt == "g":
+        return [rng.choice(FA_SUBS), rng.choice(FA_ROLES)]
+    return [rng.choice(FA_OBJS), rng.choice(FA_GROUPS)]
+
+
+def fa_gen(rng, maxops):
+    lines, present = [], {pt: [] for pt in FA_TYPES}
+    for _ in range(rng.randint(0, 6)):
+        pt = rng.choice(FA_TYPES)
+        r = fa_rule(rng, pt)
+        if r not in present[pt]:
+            present[pt].append(r)
+            lines.append(", ".join([pt] + r))
+    ops = []
+    for _ in range(rng.randint(2, maxops)):
+        x = rng.random()
+        pt = rng.choice(FA_TYPES)
+        if x < 0.35:
+            r = fa_rule(rng, pt)
+            ops.append(["add_named_grouping_policy" if pt[0] == "g" else "add_named_policy", pt] + r)
+            present[pt].append(r)
+        elif x < 0.5:
+            r = rng.choice(present[pt]) if present[pt] and rng.random() < 0.8 else fa_rule(rng, pt)
+            ops.append(["remove_named_grouping_policy" if pt[0] == "g" else "remove_named_policy", pt] + r)
+        elif x < 0.68:
+            ops.append(["save_policy"])
+        elif x < 0.82:
+            ops.append(["load_policy"])
+        elif x < 0.9:
+            ops.append(["get_named_grouping_policy" if pt[0] == "g" else "get_named_policy", pt])
+        else:
+            ops.append(["enforce", rng.choice(FA_SUBS + FA_ROLES), rng.choice(FA_OBJS + FA_GROUPS), rng.choice(FA_ACTS)])
+    ops += [["save_policy"], ["load_policy"]]
+    return dict(kind="file-adapter-history", stratum="bundled-file-adapters", initial_text="\n".join(lines) + ("\n" if lines else ""), ops=ops)
+
+
+def fa_run(case, is_async, path):
+    """the history on Enforcer + FileAdapter (is_async False) or AsyncEnforcer + AsyncFileAdapter (every call awaited);
+    after every step: result or exception type, the bytes of the store, the four policies"""
+    import asyncio
+    import casbin
+    from casbin.model import Model
+    from casbin.persist.adapters import FileAdapter
+    from casbin.persist.adapters.asyncio import AsyncFileAdapter
+
+    def wait(x):
+        return U.loop().run_until_complete(x) if asyncio.iscoroutine(x) else x
+    with open(path, "wb") as f:
+        f.write(case["initial_text"].encode("utf-8"))
+    m = Model()
+    m.load_model_from_text(FA_MODEL)
+    if is_async:
+        e = casbin.AsyncEnforcer(m, AsyncFileAdapter(path))
+        wait(e.load_policy())                   # the constructors differ by design: the dropped statement, awaited
+    else:
+        e = casbin.Enforcer(m, FileAdapter(path))
+
+    def state():
+        return dict(store=open(path, "rb").read().decode("utf-8", "replace"),
+                    policy={pt: [list(r) for r in (e.get_named_grouping_policy(pt) if pt[0] == "g" else e.get_named_policy(pt))]
+                            for pt in FA_TYPES})
+    steps = [dict(result="construct", **state())]
+    for op in case["ops"]:
+        try:
+            r = wait(getattr(e, op[0])(*op[1:]))
+            res = ["ok", U.canon_value(r)]
+        except Exception as exc:  # noqa
+            res = ["raise", type(exc).__name__]
+        steps.append(dict(result=res, **state()))
+    decisions = []
+    for s_ in FA_SUBS + FA_ROLES:
+        for o in FA_OBJS + FA_GROUPS:
+            for a in FA_ACTS:
+                try:
+                    decisions.append(bool(e.enforce(s_, o, a)))
+                except Exception as exc:  # noqa
+                    decisions.append(type(exc).__name__)
+    return steps, decisions
+
+
+def fa_diff(case, tmp):
+    import os
+    s_steps, s_dec = fa_run(case, False, os.path.join(tmp, "sync.csv"))
+    a_steps, a_dec = fa_run(case, True, os.path.join(tmp, "async.csv"))
+    for i, (a, b) in enumerate(zip(s_steps, a_steps)):
+        if a != b:
+            what = [k for k in ("result", "store", "policy") if a[k] != b[k]]
+            return dict(first_bad_step=i - 1, what="step differs in " + ", ".join(what), sync=a, **{"async": b})
+    if s_dec != a_dec:
+        return dict(first_bad_step=len(case["ops"]), what="final decisions differ", sync=s_dec, **{"async": a_dec})
+    return None
+
+
+def file_adapter_histories(chk, n, maxops):
+    """'with equivalent adapters attached they issue the same adapter writes': the library's own FileAdapter /
+    AsyncFileAdapter on a model with named policy types (p2, g2) - the bytes written by every save_policy, the policies
+    after every load_policy, step results and final decisions are equal"""
+    import tempfile
+    import time
+    done, t0 = 0, time.time()
+    with tempfile.TemporaryDirectory(prefix="c18_fa_") as tmp:
+        for _ in range(n):
+            case = fa_gen(chk.rng, maxops)
+            d = fa_diff(case, tmp)
+            done += 1
+            chk.traces += 1
+            chk.count(case_key(case) if any(op[0] == "save_policy" for op in case["ops"][:-2]) or case["initial_text"] else None)
+            if d is not None:
+                if fa_diff(case, tmp) is None:
+                    chk.notes.append("bundled-file-adapter difference not reproducible")
+                    continue
+                ops = list(case["ops"])
+                i = len(ops) - 1
+                while i >= 0:
+                    cand = dict(case, ops=ops[:i] + ops[i + 1:])
+                    if fa_diff(cand, tmp) is not None:
+                        ops = cand["ops"]
+                    i -= 1
+                small = dict(case, ops=ops)
+                d = fa_diff(small, tmp) or d
+                chk.spec_fail(small, {"async": d["async"]}, {"sync": d["sync"]},
+                              f"AsyncEnforcer + AsyncFileAdapter and Enforcer + FileAdapter diverge: {d['what']} "
+                              f"(first differing step {d['first_bad_step']})")
+                break
+    chk.extra.setdefault("history_strata", {})["bundled-file-adapters (p, p2, g, g2)"] = done
+    chk.extra.setdefault("strata", {}).update(bundled_file_adapter_histories=done, bundled_file_adapter_wall_s=round(time.time() - t0, 1))
+
+
 def replay(chk):
     rec = json.load(open(chk.replay_file))
     case = rec.get("case") or {}
+    if case.get("kind") == "file-adapter-history":
+        import tempfile
+        with tempfile.TemporaryDirectory(prefix="c18_fa_") as tmp:
+            d = fa_diff(case, tmp)
+        U.close_loop()
+        if d is not None:
+            print(f"replay: first differing step {d['first_bad_step']}: {d['what']}")
+            print(f"  sync : {json.dumps(d['sync'])[:500]}")
+            print(f"  async: {json.dumps(d['async'])[:500]}")
+            print(f"VIOLATION property={PROP} replay={chk.replay_file}")
+            sys.exit(1)
+        print(f"replay passes: Enforcer + FileAdapter and AsyncEnforcer + AsyncFileAdapter agree on all {len(case['ops'])} steps")
+        sys.exit(0)
     if "ops" not in case:
         print("replay file names a broken theorem/correspondence, not an input:", json.dumps(rec.get("broken"))[:800])
         if chk.proof is not None and chk.proof.ok and not chk.oracle_log:
@@ -242,7 +406,10 @@ def main():
                 "plain or coroutine callbacks; arguments biased to present rules (55 %), neighbours (25 %), fresh (20 %); "
                 "ops reaching a method whose twins differ are boosted; compared step by step: result or exception type, "
                 "adapter calls, watcher events; finally stored policy, decisions over the whole request universe, adapter "
-                "store and logs, un-awaited coroutines.  A history is non-trivial when at least one call changed the "
+                "store and logs, un-awaited coroutines; (3) histories on a model with named policy types (p, p2, g, g2) with the "
+                "library's own FileAdapter / AsyncFileAdapter as the equivalent adapter pair (add/remove, save_policy, load_policy, "
+                "queries): step results, the bytes of the store and the four policies after every step, final decisions.  "
+                "A history is non-trivial when at least one call changed the "
                 "policy or reached the adapter or watcher; distinct by the JSON of the whole case.")
     chk.assumptions = [
         "translator translators/asyncdiff.py dumps Python ast nodes 1:1 (injective encoding; fail-closed outside the tagged node classes)",
@@ -279,7 +446,8 @@ def main():
         chk.extra["boosted_ops"] = sorted(reach)[:60]
     n_cases, maxops = (40000, 16) if chk.tier == "thorough" else (1500, 14)
     differential(chk, n_cases, boost, maxops)
-    if chk.tier == "quick" and (chk.broken() or chk.anchor_changed) and not chk.extra.get("_buckets"):
+    file_adapter_histories(chk, 3000 if chk.tier == "thorough" else 250, 12)
+    if chk.tier == "quick" and (chk.broken() or chk.anchor_changed) and not chk.extra.get("_buckets") and not chk.spec_failures:
         chk.notes.append("escalated the history search after a broken proof/correspondence")
         differential(chk, 6000, boost, 16)
     report_failures(chk)
